@@ -31,31 +31,133 @@ import (
 	"strings"
 	"sync"
 
+	art "github.com/Clement-Jean/go-art"
 	"golang.org/x/text/collate"
 )
 
 var wideNodeRe = regexp.MustCompile(`(^|[^0-9a-f])(16|48|256)\(`)
 
 type raceReport struct {
-	Goroutines    int      `json:"partA_goroutines"`
-	Histories     int      `json:"partA_histories"`
-	WideA         int      `json:"partA_histories_with_wide_nodes"`
-	OpsA          int      `json:"partA_ops"`
-	MismatchA     int      `json:"partA_mismatches"`
-	Kinds         []string `json:"partA_kinds"`
-	Trees         int      `json:"partB_trees"`
-	Readers       int      `json:"partB_readers"`
-	OpsB          int      `json:"partB_ops"`
-	MismatchB     int      `json:"partB_mismatches"`
-	TreeSizes     []int    `json:"partB_tree_sizes"`
-	BuildMismatch int      `json:"partB_build_mismatches"`
-	Panics        int      `json:"panics"`
-	First         string   `json:"first_mismatch"`
-	Procs         int      `json:"gomaxprocs"`
-	Yields        int      `json:"yields"`
-	Nontrivial    []string `json:"nontrivial_hashes"` // histories / reader lists distinct by hash whose tree held a node of class 16/48/256
-	Distinct      int      `json:"distinct_hashes"`
-	Samples       []string `json:"samples"`
+	Goroutines     int      `json:"partA_goroutines"`
+	Histories      int      `json:"partA_histories"`
+	WideA          int      `json:"partA_histories_with_wide_nodes"`
+	OpsA           int      `json:"partA_ops"`
+	MismatchA      int      `json:"partA_mismatches"`
+	Kinds          []string `json:"partA_kinds"`
+	Trees          int      `json:"partB_trees"`
+	Readers        int      `json:"partB_readers"`
+	OpsB           int      `json:"partB_ops"`
+	MismatchB      int      `json:"partB_mismatches"`
+	TreeSizes      []int    `json:"partB_tree_sizes"`
+	BuildMismatch  int      `json:"partB_build_mismatches"`
+	Panics         int      `json:"panics"`
+	First          string   `json:"first_mismatch"`
+	Procs          int      `json:"gomaxprocs"`
+	Yields         int      `json:"yields"`
+	Nontrivial     []string `json:"nontrivial_hashes"` // histories / reader lists distinct by hash whose tree held a node of class 16/48/256
+	Distinct       int      `json:"distinct_hashes"`
+	Samples        []string `json:"samples"`
+	SlabGoroutines int      `json:"partC_goroutines"`
+	SlabOps        int      `json:"partC_ops"`
+	SlabMismatch   int      `json:"partC_mismatches"`
+	SlabFirst      string   `json:"partC_first_mismatch"`
+}
+
+// raceSlab — Part C: every goroutine has PRIVATE trees (a byte-string tree and a collation tree with []byte keys),
+// but all keys are adjacent fixed-width windows of ONE shared slab (buf[i*W:(i+1)*W]: spare capacity reaching into
+// the neighbours' records, which belong to other goroutines).  Key memory is only ever read by the callers, so
+// sharing it is legal; a tree that writes into a key argument's backing array — even temporarily, restoring the
+// byte before it returns — races with the neighbour's reads.
+func raceSlab(seed uint64, G int) (ops, mismatches int, first string) {
+	const W, per = 12, 96
+	slab := make([]byte, G*per*W)
+	r := &rng{seedFor(seed, "race:slab", 0)}
+	for i := 0; i < G*per; i++ {
+		rec := slab[i*W : (i+1)*W]
+		copy(rec, fmt.Sprintf("r%05d", i))
+		for j := 6; j < W; j++ {
+			rec[j] = byte('a' + r.n(26))
+		}
+	}
+	var mu sync.Mutex
+	bad := func(msg string) {
+		mu.Lock()
+		mismatches++
+		if first == "" {
+			first = msg
+		}
+		mu.Unlock()
+	}
+	var start, done sync.WaitGroup
+	start.Add(1)
+	for g := 0; g < G; g++ {
+		done.Add(1)
+		go func(g int) {
+			defer done.Done()
+			key := func(j int) []byte { i := j*G + g; return slab[i*W : (i+1)*W] } // neighbours belong to other goroutines
+			alpha := art.NewAlphaSortedTree[[]byte, int]()
+			coll := art.NewCollationSortedTree[[]byte, int]()
+			n := 0
+			start.Wait()
+			for round := 0; round < 3; round++ {
+				for j := 0; j < per; j++ {
+					alpha.Insert(key(j), j)
+					coll.Insert(key(j), j)
+					n += 2
+					if j%4 == 3 {
+						runtime.Gosched()
+					}
+				}
+				for j := 0; j < per; j++ {
+					if v, ok := alpha.Search(key(j)); !ok || v != j {
+						bad(fmt.Sprintf("slab: goroutine %d: alpha Search(%q) = %d, %v", g, key(j), v, ok))
+					}
+					if v, ok := coll.Search(key(j)); !ok || v != j {
+						bad(fmt.Sprintf("slab: goroutine %d: collation Search(%q) = %d, %v", g, key(j), v, ok))
+					}
+					n += 2
+				}
+				cnt := 0
+				for range alpha.Range(key(0), key(per-1)) {
+					cnt++
+				}
+				for range alpha.Prefix(key(0)[:1]) {
+					cnt++
+				}
+				if cnt < per {
+					bad(fmt.Sprintf("slab: goroutine %d: Range/Prefix yielded %d keys of %d", g, cnt, per))
+				}
+				for j := 0; j < per; j++ {
+					if !alpha.Delete(key(j)) {
+						bad(fmt.Sprintf("slab: goroutine %d: alpha Delete(%q) of a present key returned false", g, key(j)))
+					}
+					if !coll.Delete(key(j)) {
+						bad(fmt.Sprintf("slab: goroutine %d: collation Delete(%q) of a present key returned false", g, key(j)))
+					}
+					if alpha.Delete(key(j)) {
+						bad(fmt.Sprintf("slab: goroutine %d: second alpha Delete(%q) returned true", g, key(j)))
+					}
+					n += 3
+					if j%4 == 1 {
+						runtime.Gosched()
+					}
+				}
+				if alpha.Size() != 0 || coll.Size() != 0 {
+					bad(fmt.Sprintf("slab: goroutine %d: sizes %d / %d after deleting everything", g, alpha.Size(), coll.Size()))
+				}
+			}
+			mu.Lock()
+			ops += n
+			mu.Unlock()
+		}(g)
+	}
+	start.Done()
+	done.Wait()
+	want := fmt.Sprintf("r%05d", G*per-1)
+	if string(slab[(G*per-1)*W:(G*per-1)*W+6]) != want {
+		bad("slab: the shared key slab was modified")
+	}
+	return
 }
 
 func hashLines(lines []string) string {
@@ -482,6 +584,13 @@ func raceMain(args []string) int {
 		doneB.Wait()
 		runtime.KeepAlive(shared)
 	}
+	// ---------------- Part C: private trees, keys cut from ONE shared read-only slab
+	rep.SlabGoroutines = G
+	rep.SlabOps, rep.SlabMismatch, rep.SlabFirst = raceSlab(seed, G)
+	if rep.SlabFirst != "" && rep.First == "" {
+		rep.First = rep.SlabFirst
+	}
+	rep.MismatchA += rep.SlabMismatch
 	rep.Yields = int(yields)
 	rep.Distinct = len(distinct)
 	for h := range nontrivial {
